@@ -4,13 +4,10 @@
   which a valueless variable is a free variable of the answer, read at its base value).
 -/
 import Y0.Model.CtfFactor
+import Y0.Model.CtfTr
 import Y0.Lemmas.Ctf
 
 namespace Y0.Ctf
-
-/-- every valueless item `(W_s, None)` becomes `(W_s, -W)` -/
-def fillEvent (q : Event) : Event :=
-  q.map fun p => (p.1, match p.2 with | some i => some i | none => some ⟨p.1.name, false⟩)
 
 theorem fillEvent_vars (q : Event) : (fillEvent q).map (·.1) = q.map (·.1) := by
   unfold fillEvent
